@@ -517,8 +517,8 @@ func run(c *mon.Ctx) {
 	})
 	// the helpers and accessors work on the packet they are given / return, whoever else is using them at that moment
 	c.Floor("concurrent.calls", 20000)
-	c.Stream("concurrent-callers", c.N(3, 150), func(i int, r *gen.Rand) {
-		c.Concurrent("creation helpers / SetPayload / Payload", 8, 1500, r, func(q *gen.Rand) string {
+	c.Stream("concurrent-callers", c.N(8, 200), func(i int, r *gen.Rand) {
+		c.Concurrent("creation helpers / SetPayload / Payload", 8, 6000, r, func(q *gen.Rand) string {
 			pid, cc := q.Intn(8192), uint8(q.Intn(16))
 			pusi, hasPay := q.Bool(), q.Bool()
 			p := packet.CreateTestPacket(pid, cc, pusi, hasPay)
